@@ -209,8 +209,16 @@ def _main(a, prop, seed, env, run_dir, t0):
         procs.append((i, out, run_worker(args, env, slot=i)))
     shard_res = []
     harness_errors = []
+    # watchdog: a worker that is still running long after any sane budget is a harness problem (exit 2), not a
+    # verdict; budgets are case counts, this only keeps a stuck worker from blocking the caller for ever
+    limit = float(os.environ.get("VERIF_WALL_LIMIT_S", "2700" if a.tier == "quick" else "28800"))
+    t_end = t0 + limit
     for i, out, p in procs:
-        p.wait()
+        try:
+            p.wait(timeout=max(1.0, t_end - time.time()))
+        except subprocess.TimeoutExpired:
+            p.kill()
+            p.wait()
         res = read_json(out)
         if res is None:
             harness_errors.append(f"shard {i} died (rc={p.returncode}) without a result")
